@@ -140,4 +140,26 @@ theorem glue_dup {s s₁ : St} {pre post c : List Instr} {i : Instr} {v : Val}
   refine ⟨(reach_dup a1 l.data).cast (by rw [l.data]), ?_⟩
   exact At.move h l.fn (by simp) (by rw [St.jmp_pc, l.pc, h.pc]; simp; omega)
 
+/-! ## `let` / `letseq` / `newScope`: the scope around the body -/
+
+theorem glue_addScope {s : St} {pre post inner : List Instr}
+    (h : Seg s pre ([.addScope] ++ inner ++ [.removeScope]) post) :
+    Reach 1 1 s s.pushScope ∧ Moved 1 s s.pushScope :=
+  ⟨Reach.step (i := .addScope) (post := inner ++ [.removeScope] ++ post) ⟨h.user, by rw [h.code]; simp, h.pc⟩
+      (fun f => exec_addScope f s),
+   ⟨rfl, rfl, rfl⟩⟩
+
+theorem glue_removeScope {s s₃ : St} {pre post inner : List Instr} {v : Val} {a : Option Nat} {rest : List (Option Nat)}
+    (h : Seg s pre ([.addScope] ++ inner ++ [.removeScope]) post) (l : Lands (1 + inner.length) v s s₃)
+    (hlin : s₃.linear = a :: rest) :
+    Reach 1 1 s₃ s₃.popScope ∧ Lands ([Instr.addScope] ++ inner ++ [Instr.removeScope]).length v s s₃.popScope := by
+  have a3 : At s₃ (pre ++ [.addScope] ++ inner) .removeScope post :=
+    At.move h l.fn (by simp) (by rw [l.pc, h.pc]; simp; omega)
+  refine ⟨Reach.step a3 (fun f => ?_), ⟨l.fn, ?_, l.data⟩⟩
+  · rw [exec_removeScope, hlin]
+    show _ = (Except.ok (), { s₃ with pc := s₃.pc + 1, linear := s₃.linear.tail })
+    rw [hlin]; rfl
+  · show s₃.pc + 1 = _
+    rw [l.pc]; simp only [List.length_append, List.length_cons, List.length_nil]; push_cast; omega
+
 end ZygoVerif.Sim
